@@ -21,7 +21,7 @@ def run(ctx):
     ctx.model_check("MC_WordGen", "MC_WordGen.cfg", "EntropyCount = number of passwords when all words capitalisable; min-entropy bound otherwise",
                     workers=vlib.NCPU, constants={"MaxLen": 2})
     seps = [dict(sep="char", sepChar=[]), dict(sep="char", sepChar=wlfam.o(" ")), dict(sep="SFDigits1", sepChar=[]), dict(sep="SFDigits2", sepChar=[]),
-            dict(sep="SFNone", sepChar=[]),
+            dict(sep="SFNone", sepChar=[]), dict(sep="SFDigits2", sepChar=wlfam.o("-")), dict(sep="SFNone", sepChar=wlfam.o("+")),
             dict(sep="recipe", sepChar=[], sepRecipe=dict(len=3, allow=8, require=0, exclude=0, allowChars=wlfam.o("é"), requireSets=[], excludeChars=[])),
             dict(sep="recipe", sepChar=[], sepRecipe=dict(len=4, allow=12, require=4, exclude=16, allowChars=[], requireSets=[], excludeChars=[]))]
     scen = []
